@@ -649,17 +649,20 @@ func (u *Upstream) processDataIDAliases(aliases map[uint32]*message.DataID) {
 
 func (u *Upstream) processResult(ctx context.Context, result *message.UpstreamChunkResult) error {
 	u.mu.Lock()
-	defer u.mu.Unlock()
 	ch, ok := u.upstreamChunkResultChs[result.SequenceNumber]
+	if ok {
+		delete(u.upstreamChunkResultChs, result.SequenceNumber)
+	}
+	u.mu.Unlock()
 	if !ok {
 		return nil
 	}
+	// hand the result over without holding the stream lock: the waiter takes that lock before it starts receiving
 	select {
 	case <-ctx.Done():
 	case <-u.ctx.Done():
 	case ch <- result:
 	}
-	delete(u.upstreamChunkResultChs, result.SequenceNumber)
 	return nil
 }
 
